@@ -211,3 +211,8 @@ Fixpoint run_oks (W H : N) (fails : N -> bool) (s : sys) (ops : list (N * op)) :
       let '(s1, _, ok) := step W H fails s now o in
       ok :: run_oks W H fails s1 r
   end.
+
+(* rows of finished, reaped bars that stay on the screen (zombie_lines_count) + rows the next
+   draw of the MultiProgress will erase (last_line_count) *)
+Definition kept_plus_live (s : sys) : N :=
+  ms_zombie_lines (s_mp s) + target_n (ms_target (s_mp s)).
